@@ -76,6 +76,32 @@ def check(run):
                 r = e[4]
                 if not (0 < r <= 1) and found is None:
                     found = {"kind": "input", "what": f"relaxation factor {r!r} outside (0,1]", "case": sc.describe(sps, x0, T, P)}
+            # the same object after its inputs were re-assigned (a user's parameter sweep): the returned composition must obey the
+            # CURRENT x0, T, P
+            if rng.random() < 0.3:
+                import warnings
+                x0b = [rng.random() if (v > 0 or (sp.charge_number == 0 and rng.random() < 0.5)) else 0.0 for v, sp in zip(x0, sps)]
+                names_b, A_b = sc.constraint_matrix(m)
+                if all((A_b[:-1, k] @ np.array(x0b)) > 0 for k in range(A_b.shape[1] - 1)):
+                    with warnings.catch_warnings(record=True) as wb:
+                        warnings.simplefilter("always")
+                        try:
+                            m.x0 = x0b
+                            if rng.random() < 0.5:
+                                m.T = T * rng.uniform(0.7, 1.4)
+                            ndb = np.asarray(m.calculate_composition(), dtype=float)
+                            warned_b = any("Minimiser could not find" in str(x.message) for x in wb)
+                        except np.linalg.LinAlgError:
+                            warned_b, ndb = True, None
+                    # the recorded iterations now belong to the second solve: the correspondence below must see that composition
+                    runs[-1] = (m, ndb if not warned_b else None, True if warned_b else warned)
+                    hist["reassigned:" + ("warned" if warned_b else "ok")] = hist.get("reassigned:" + ("warned" if warned_b else "ok"), 0) + 1
+                    run.count(1, distinct_key=("re", tuple(s.name for s in sps), round(T, 3), round(P, 3)), nontrivial=not warned_b)
+                    if not warned_b:
+                        v = violates(m, ndb, x0b)
+                        if v and found is None:
+                            found = {"kind": "history", "what": "after re-assigning x0 (and T) on a solved object: " + v,
+                                     "case": sc.describe(sps, x0, T, P), "then_x0": x0b, "then_T": m.T}
         run.sample({"species": [s.name for s in sps], "T": T, "P": P, "outcome": outcome}, cap=4)
     run.cov["outcome_histogram"] = hist
     if not okd:
